@@ -288,7 +288,9 @@ Definition feed_old (fx : fixes) (s : st) (chunk : list Z) : st * list out :=
   else sync fx {| buf := take curr whole; stale := drop curr whole; mq := mq s; halted := false |}.
 
 Inductive ev := Start (n : Z) | Seg (chunk : list Z) | Tick | Sub (pid sz : Z) | Ping
-              | Pub (pid sz : Z).   (* the device queues a QoS 1 PUBLISH of sz bytes with packet id pid (mqtt_publish) *)
+              | Pub (pid sz : Z)    (* the device queues a QoS 1 PUBLISH of sz bytes with packet id pid (mqtt_publish) *)
+              | Relink (n : Z).     (* the session ends (protocol error before, or the link died now); supla_esp_mqtt_reconnect:
+                                       mqtt_reinit rewinds the receive window and empties the queue; new CONNECT of n bytes *)
 
 Definition device_pack (s : st) (ct pid sz : Z) : st * list out :=
   match try_pack ct pid sz (mq s) with
@@ -296,15 +298,20 @@ Definition device_pack (s : st) (ct pid sz : Z) : st * list out :=
   | (None, _) => ({| buf := buf s; stale := stale s; mq := mq s; halted := true |}, [Err E_SEND_BUFFER_IS_FULL; Reconnect])
   end.
 
-Definition boot (fx : fixes) (n : Z) : st * list out :=
-  let s0 := {| buf := []; stale := zeros RECVBUF;
+Definition boot_with (fx : fixes) (mem : list Z) (n : Z) : st * list out :=
+  let s0 := {| buf := []; stale := mem;
                mq := [{| ect := CT_CONNECT; epid := 0; esz := n; esent := false; eacked := false |}]; halted := false |} in
   let '(s1, o1) := sync fx s0 in (s1, Boot n :: o1).
+Definition boot (fx : fixes) (n : Z) : st * list out := boot_with fx (zeros RECVBUF) n.
 
 Definition step (fx : fixes) (s : st) (e : ev) : st * list out :=
+  match e with
+  | Relink n => let '(s1, o1) := boot_with fx (buf s ++ stale s) n in (s1, (if halted s then [] else [Reconnect]) ++ o1)
+  | _ =>
   if halted s then (s, []) else
   match e with
   | Start _ => (s, [])
+  | Relink _ => (s, [])
   | Seg chunk => if fx_recv fx then feed (S (S (length chunk))) fx s chunk else feed_old fx s chunk
   | Tick => let '(s1, o1) := sync fx s in
             if halted s1 then (s1, o1)
@@ -312,6 +319,7 @@ Definition step (fx : fixes) (s : st) (e : ev) : st * list out :=
   | Sub pid sz => device_pack s CT_SUBSCRIBE pid sz
   | Ping => device_pack s CT_PINGREQ 0 2
   | Pub pid sz => device_pack s CT_PUBLISH pid sz
+  end
   end.
 
 Fixpoint run_from (fx : fixes) (s : st) (evs : list ev) : st * list out :=
@@ -367,6 +375,7 @@ Definition ev_of_wire (w : wire) : ev :=
     else if k =? 2 then Tick
     else if k =? 3 then Sub (nth 0 a 0) (nth 1 a 0)
     else if k =? 5 then Pub (nth 1 a 0) (nth 2 a 0)
+    else if k =? 6 then Relink (nth 0 a 0)
     else Ping
   end.
 Definition fx_of_wire (ws : list wire) : fixes :=
